@@ -75,6 +75,12 @@ class Janus:
         start = coords()
         if userflag == 3:
             sim.gravity = "compensated"      # the other direct-summation routine: the force must still be a function of the positions alone
+        elif userflag in (4, 5, 6):
+            # test particles (their forces come from separate loops of the force routines): 4 compensated, 5 basic, both with the
+            # last body a test particle; 6 compensated, only the first body active, test particles acting back on it
+            sim.gravity = "basic" if userflag == 5 else "compensated"
+            sim.N_active = 1 if userflag == 6 else N - 1
+            sim.testparticle_type = 1 if userflag == 6 else 0
         elif userflag:
             sim.ri_janus.recalculate_integer_coordinates_this_timestep = 1   # documented: "set to 1 if particles have been modified"
         if userflag == 2:
@@ -103,7 +109,7 @@ class Janus:
                     v1 = getattr(ps[i], a)
                     if struct.pack("<d", v1) != struct.pack("<d", v0):
                         diffs.append((i, a, v0, v1))
-            V.append(("janus:not-bitwise-reversible:order%d:%s" % (order, "compensated" if userflag == 3 else "userflag" if userflag else "plain"), "after %d steps forward and %d back %d coordinates differ from the initial bits, e.g. particle %d %s: %r -> %r [%s]" % (
+            V.append(("janus:not-bitwise-reversible:order%d:%s" % (order, {3: "compensated", 4: "compensated-testparticles", 5: "basic-testparticles", 6: "compensated-testparticles-type1"}.get(userflag, "userflag" if userflag else "plain")), "after %d steps forward and %d back %d coordinates differ from the initial bits, e.g. particle %d %s: %r -> %r [%s]" % (
                 n, n, len(diffs), diffs[0][0], diffs[0][1], diffs[0][2], diffs[0][3], tag)))
         else:
             pint = sim.ri_janus.p_int
@@ -122,7 +128,7 @@ for c in ("jacobi", "democraticheliocentric", "whds", "barycentric"):
 for t in ("1", "2", "3", "4", "10,4", "8,6,4", "10,6,4", "h8,4,4", "h8,6,4", "h10,6,4"):
     SYM.append(("saba", {"type": t, "safe_mode": 1}))
 for p0 in ("lf", "lf4", "lf6", "lf8", "lf4_2", "lf8_6_4"):
-    for p1 in ("lf", "lf4", "lf8"):
+    for p1 in ("lf", "lf4", "lf6", "lf8", "lf4_2", "lf8_6_4"):
         SYM.append(("eos", {"phi0": p0, "phi1": p1, "n": 2, "safe_mode": 1}))
 SYM.append(("leapfrog", {}))
 
@@ -222,6 +228,9 @@ def run(ctx):
                     for which in (0, 1, 2, 3):
                         for first in (1, -1):
                             jt.append((order, scale, N, n, which, first, 3))     # 3: compensated gravity
+                            if scale == 1e-16:
+                                for uf in (4, 5, 6):                             # the same with test particles
+                                    jt.append((order, scale, N, n, which, first, uf))
     st = []
     for integ, o in SYM:
         for sysname in ("S3", "S4G", "flyby"):
@@ -254,8 +263,8 @@ def run(ctx):
     cov = {
         "whfast512_cases": n_w512,
         "evaluations": len(jt) + len(st), "distinct_nontrivial": len(jt) + len(st),
-        "rule": "JANUS: order{2,4,6,8,10} x (scale_pos,scale_vel) in {1e-16,1e-12,1e-8 equal; (4e-16,1e-16); (1e-12,2e-12)} x N{2,3,4} x n{1,2,5,50(,500)} x 4 grid-representable initial conditions x first direction x {plain, recalculation flag set by the user before the run, run started from a state reached after modifying a particle and requesting recalculation once}; "
-                "symmetric schemes: WHFast x 4 coordinate systems x safe/unsafe, 10 uncorrected SABA types, 18 unprocessed EOS splittings, LEAPFROG on {S3, S4G, hyperbolic flyby} and SEI (free, self-gravitating, shearing box) x n x direction",
+        "rule": "JANUS: order{2,4,6,8,10} x (scale_pos,scale_vel) in {1e-16,1e-12,1e-8 equal; (4e-16,1e-16); (1e-12,2e-12)} x N{2,3,4} x n{1,2,5,50(,500)} x 4 grid-representable initial conditions x first direction x {plain, recalculation flag set by the user before the run, run started from a state reached after modifying a particle and requesting recalculation once}; order x scale{1e-16,2^-56} x N{3,4} x n{50,400} with compensated gravity, and at scale 1e-16 also with test particles (compensated or basic with the last body a test particle; compensated with one active body and testparticle_type 1); "
+                "symmetric schemes: WHFast x 4 coordinate systems x safe/unsafe, 10 uncorrected SABA types, 36 unprocessed EOS splittings (phi0 x phi1 over lf, lf4, lf6, lf8, lf4_2, lf8_6_4), LEAPFROG on {S3, S4G, hyperbolic flyby} and SEI (free, self-gravitating, shearing box) x n x direction",
         "samples": [list(jt[0]), list(st[0][:1]) + [st[0][1]] + list(st[0][2:])], "observed_max_round_trip_error_in_units_of_u_n_scale": worst, "allowed": ROUND_K, "exhaustive": True,
     }
     return ctx.finish(LEVEL, cov, assumptions=[
